@@ -23,20 +23,27 @@ def all_inputs(nk_active, maxlen):
             yield list(w)
 
 
-def replay_files(job, kinds, observed, complaints, extra=None):
+def replay_files(job, kinds, observed, complaints, extra=None, nat=None, orc=None):
+    exp = None
+    if orc is not None:
+        exp = orc.expect(kinds)
+        if "valid_next" in exp:
+            exp = dict(exp, valid_next=sorted(exp["valid_next"]))
     files = {
         "grammar.lalrpop": job.text,
         "case.json": json.dumps({
             "grammar": job.g.name, "algorithm": job.algo, "features": sorted(job.feats),
             "start": job.start, "input_kinds": kinds,
             "input_terminals": [job.g.terms[k].name for k in kinds],
-            "observed": observed, "complaints": complaints, "extra": extra or {},
+            "observed": observed, "complaints": complaints, "extra": extra or {}, "expected": exp, "module": job.modname,
             "env": K.ALGOS[job.algo][1], "lalr_attribute": K.ALGOS[job.algo][0],
         }, indent=1),
         "README": "Replay: ./check %s --replay <this dir>  (regenerates the parser from grammar.lalrpop with the recorded "
                   "configuration, parses the recorded token kinds through the public parse() API and compares with the "
                   "specification).\n",
     }
+    if nat is not None:
+        files["main.rs"] = open(os.path.join(nat.crate.dir, "src", "main.rs")).read()
     return files
 
 
@@ -76,7 +83,7 @@ def run_property(pid, tier, jobs, *, native_len, timeout_s, functions, assumptio
             if bad:
                 key = "native:%s:%s:%s:%s" % (j.g.name, j.algo, j.start, "_".join(map(str, w)))
                 violations.append((key, "%s on input %s: %s" % (j.key(), [j.g.terms[k].name for k in w], "; ".join(bad)),
-                                   replay_files(j, w, obs, bad)))
+                                   replay_files(j, w, obs, bad, nat=nat, orc=orc)))
     # ---- Kani ---------------------------------------------------------------------------------
     hs = [h for j in accepted for h in j.harnesses]
     byh = {h: j for j in accepted for h in j.harnesses}
@@ -139,7 +146,7 @@ def run_property(pid, tier, jobs, *, native_len, timeout_s, functions, assumptio
             if bad or bad_rel:
                 violations.append((key, "%s: solver counterexample %s reproduces natively: %s (failed checks: %s)" %
                                    (h, [j.g.terms[k].name for k in kinds], "; ".join(bad or bad_rel), fc[:2]),
-                                   replay_files(j, kinds, obs, bad or bad_rel, {"harness": h, "failed_checks": fc})))
+                                   replay_files(j, kinds, obs, bad or bad_rel, {"harness": h, "failed_checks": fc}, nat=nat, orc=orc)))
             else:
                 inconclusive.append("%s FAILED (%s) with input %s, but the native parser agrees with the specification on it "
                                     "(observed %r): the table functions disagree with the harness model while the public API "
@@ -219,7 +226,10 @@ def relevant(pid, complaint):
 
 
 def replay(pid, path):
-    """Re-run a stored case against the current /repo working tree."""
+    """Re-run a stored case against the current working tree: regenerate the parser from the stored grammar text under the stored
+    configuration, build it against the current lalrpop-util, parse the stored input through the public API, compare with the
+    stored specification verdict.  Exit 1 if the complaint persists, 0 if the tree now behaves as specified."""
+    import re as _re
     case = json.load(open(os.path.join(path, "case.json")))
     if case.get("engine") == "symdrive":
         from . import e3
@@ -227,10 +237,30 @@ def replay(pid, path):
     text = open(os.path.join(path, "grammar.lalrpop")).read()
     env = dict(case.get("env") or {})
     gen = K.run_generator(text, case["grammar"], env=env, features=case["features"] or None)
-    print("generator: rc=%d" % gen.rc)
     if not gen.ok:
-        print(gen.out[-2000:])
+        print("generator now rejects the grammar:\n" + gen.out[-1500:])
         return 2
-    print("recorded: observed=%r complaints=%r" % (case["observed"], case["complaints"]))
-    print("(the stored grammar is regenerated; use the property check itself for a full verdict)")
-    return 0
+    mp = os.path.join(path, "main.rs")
+    if not os.path.exists(mp) or case.get("expected") is None:
+        print("recorded: observed=%r complaints=%r (no stored driver: run the property check for a verdict)" % (case["observed"], case["complaints"]))
+        return 0
+    crate = K.NativeCrate("replay_e1")
+    main = open(mp).read()
+    mods = set(_re.findall(r"^pub mod (g_\w+);", main, _re.M))
+    for m in mods:
+        crate.write(m + ".rs", gen.rs if m == case["module"] else "")
+    # modules of other grammars of the original run are not needed: blank them out of the dispatcher
+    main = _re.sub(r'\n        \("(?!%s")[^\n]*' % _re.escape(case["module"]), "", main)
+    for m in mods - {case["module"]}:
+        main = main.replace("pub mod %s;" % m, "")
+    crate.write("main.rs", main)
+    rc, out = crate.run(stdin="%s %s %s\n" % (case["module"], case["start"], " ".join(map(str, case["input_kinds"]))))
+    obs = [l for l in out.splitlines() if l.startswith(("OK", "ERR", "PANIC"))]
+    obs = obs[0] if obs else out[-300:]
+    exp = case["expected"]
+    if "valid_next" in exp:
+        exp = dict(exp, valid_next=set(exp["valid_next"]))
+    bad = [b for b in native.check_expect(exp, case["input_kinds"], obs, case["algorithm"] == "lr1") if relevant(pid, b)]
+    print("input %s -> %s" % (case["input_terminals"], obs))
+    print("complaints now: %s" % (bad or "none"))
+    return 1 if bad else 0
